@@ -760,6 +760,8 @@ func (r *Run) doCtl(sc *plan.Script, op *plan.Op, rec *plan.Rec) {
 			}
 		}
 	case "ctl.wait_stable":
+		r.C.Strict = op.Flag
+		r.C.Quiet = msd(op.Dur2)
 		d, err := r.C.WaitStable(msd(max64(op.Dur, 60000)), 50*time.Millisecond)
 		rec.Int = int64(d)
 		if err != nil {
